@@ -301,3 +301,35 @@ def C12(ctx):
 
 
 PROPS.update({"C10": C10, "C11": C11, "C12": C12})
+
+
+def C14(ctx):
+    t = "quick" if ctx.quick else "thorough"
+    ctx.rule = ("scanner: every byte string of length <= 7/9 over {a, space, tab, newline, @} (implemented four-index scanner = "
+                "maximal non-blank segments; final newline irrelevant), strings of length <= 6/7 replayed on the real parser; "
+                "every command word (18 commands, 7 near-misses) x 12 argument classes as single lines through the list parser "
+                "and the single-line parser; random lists of 0-60 lines with arbitrary bytes validated by TLC, including that "
+                "every kept line parsed alone gives the same entry; non-trivial = list with at least one file entry")
+    ctx.assumptions = ["lines consisting only of blanks and the bytes 0B 0C 0D 85 A0, and arguments whose first byte after the "
+                       "space/tab run is one of those, are not judged ('blank' is ambiguous there)",
+                       "the error kind of a rejected line is not compared"]
+    ctx.emit_replay("MC_Plist", "MC_Plist.scan.%s.cfg" % t, "scan-enum")
+    ctx.emit_replay("MC_Plist", "MC_Plist.cmds.%s.cfg" % t, "cmds-enum")
+    ctx.exhaustive = True
+    ctx.record_validate("plist", q(ctx, 8000, 100000), "Tr_Plist", "Tr_Plist.cfg", name="plist")
+    ctx.record_validate("plistline", q(ctx, 8000, 100000), "Tr_Plist", "Tr_Plist.cfg", name="plistline")
+
+
+def C15(ctx):
+    t = "quick" if ctx.quick else "thorough"
+    ctx.rule = ("every sequence of <= 3/5 entries over 18 entry kinds (two files, @ignore, three @cwd incl. trailing '/' and "
+                "non-UTF-8, @exec, @unexec, @mode with/without argument, @pkgdir, @dirrm, @name, @option, @comment, @pkgdep, "
+                "@display, @owner): the four implemented view loops = the property's definitions, all views list the same "
+                "files; sequences of <= 3/4 entries rendered to text and all twelve queries compared on the real code; random "
+                "lists of <= 60 entries validated by TLC; non-trivial = list with at least one listed file")
+    ctx.emit_replay("MC_Plist", "MC_Plist.views.%s.cfg" % t, "views-enum")
+    ctx.exhaustive = True
+    ctx.record_validate("plist", q(ctx, 10000, 120000), "Tr_Plist", "Tr_Plist.cfg", name="plist")
+
+
+PROPS.update({"C14": C14, "C15": C15})
